@@ -298,15 +298,22 @@ pub struct Store {
 }
 
 pub fn make_config(cfg: &[&str], dir: &str) -> raft_log::Config {
-    let p = |s: &str| -> usize { s.parse::<u64>().unwrap() as usize };
+    // "-" leaves a field unset: the crate's default applies
+    let p = |s: &str| -> Option<usize> {
+        if s == "-" {
+            None
+        } else {
+            Some(s.parse::<u64>().unwrap() as usize)
+        }
+    };
     raft_log::Config {
         dir: dir.to_string(),
-        log_cache_max_items: Some(p(cfg[0])),
-        log_cache_capacity: Some(p(cfg[1])),
-        chunk_max_records: Some(p(cfg[2])),
-        chunk_max_size: Some(p(cfg[3])),
-        truncate_incomplete_record: Some(cfg[4] == "1"),
-        read_buffer_size: Some(p(cfg[5])),
+        log_cache_max_items: p(cfg[0]),
+        log_cache_capacity: p(cfg[1]),
+        chunk_max_records: p(cfg[2]),
+        chunk_max_size: p(cfg[3]),
+        truncate_incomplete_record: if cfg[4] == "-" { None } else { Some(cfg[4] == "1") },
+        read_buffer_size: p(cfg[5]),
     }
 }
 
